@@ -704,6 +704,14 @@ The sequence of neighbors is guaranteed to be sorted."""
                     "Node {} lacks the 'bipartite' property set to 0 or 1".format(u))
             side[int(color)].append(u)
 
+        # If the vertices have some kind of order, the order is
+        # preserved (as for simple and directed graphs)
+        for vertices in side:
+            try:
+                vertices.sort()
+            except TypeError:
+                pass
+
         B = cls(len(side[0]), len(side[1]))
         index[0] = {u: i for (i, u) in enumerate(side[0], start=1)}
         index[1] = {v: i for (i, v) in enumerate(side[1], start=1)}
